@@ -57,6 +57,8 @@ type model struct {
 	NPartial  int
 	NQuad     int
 	GroupTags []string
+	Lone      []string // members of incomplete groups (each a scalar of its own name)
+	Directed  string   // directed near-packed layout: which group, which pattern
 }
 
 func (m *model) hasList(kind string) int {
@@ -93,7 +95,7 @@ type group struct {
 }
 
 var groupsCanonical = []group{
-	{"xyz", []string{"x", "y", "z"}, "Position", []string{"float", "float", "float", "double", "int"}, 0.93},
+	{"xyz", []string{"x", "y", "z"}, "Position", []string{"float", "float", "float", "double", "int"}, 0.88},
 	{"n", []string{"nx", "ny", "nz"}, "Normal", []string{"float", "float", "double", "int"}, 0.45},
 	{"rgb", []string{"red", "green", "blue"}, "Color", []string{"uchar", "uchar", "uchar", "float", "double", "int"}, 0.5},
 	{"st", []string{"s", "t"}, "TexCoord", []string{"float", "double"}, 0.15},
@@ -150,7 +152,9 @@ func drawStored(r *rand.Rand, typ string) float64 {
 		return float64(r.Intn(2001) - 1000)
 	}
 	// float / double: float32-representable
-	switch r.Intn(12) {
+	switch r.Intn(14) {
+	case 12:
+		return hugeWhole(r)
 	case 0:
 		return 0
 	case 1:
@@ -230,23 +234,19 @@ func genModel(r *rand.Rand, o genOpts) *model {
 		chunks = append(chunks, chunk{{Name: n, Type: typ}})
 		m.NExtra++
 	}
-	if r.Intn(6) == 0 {
-		p := partials[r.Intn(len(partials))]
-		ok := true
-		for _, n := range p {
-			// an incomplete group must stay incomplete and must not collide
-			if usedName[n] {
-				ok = false
-			}
-		}
-		if ok && !completesAGroup(usedName, p) {
-			var c chunk
+	if r.Intn(4) == 0 {
+		if p := loneComponents(r, usedName); p != nil {
 			typ := []string{"float", "double", "int", "uchar"}[r.Intn(4)]
+			mixed := r.Intn(2) == 0
 			for _, n := range p {
-				c = append(c, vprop{Name: n, Type: typ})
+				if mixed {
+					typ = []string{"float", "double", "int", "uchar"}[r.Intn(4)]
+				}
+				// separate chunks: the members of an incomplete group need not be neighbours
+				chunks = append(chunks, chunk{{Name: n, Type: typ}})
 				usedName[n] = true
+				m.Lone = append(m.Lone, n)
 			}
-			chunks = append(chunks, c)
 			m.NPartial++
 		}
 	}
@@ -268,6 +268,9 @@ func genModel(r *rand.Rand, o genOpts) *model {
 	}
 	if m.Order == "fully-shuffled" {
 		r.Shuffle(len(m.VProps), func(i, j int) { m.VProps[i], m.VProps[j] = m.VProps[j], m.VProps[i] })
+	}
+	if r.Intn(7) == 0 {
+		directedNearPacked(r, m, chunks0(chunks), usedName)
 	}
 	for i := range m.VProps {
 		m.VProps[i].Spelled = spell(r, m.VProps[i].Type, &m.NAlias)
@@ -460,4 +463,226 @@ func bucket(n int) int {
 		return 32
 	}
 	return 1 << uint(math.Ceil(math.Log2(float64(n))))
+}
+
+// hugeWhole: a whole number of magnitude in [2^53, 3e38], exactly representable
+// in float32, both signs; the int64 boundary is drawn on purpose.
+func hugeWhole(r *rand.Rand) float64 {
+	var v float64
+	switch r.Intn(8) {
+	case 0:
+		v = math.Ldexp(1, 63)
+	case 1:
+		v = math.Ldexp(1, 64)
+	case 2:
+		v = math.Ldexp(1, 53+r.Intn(10))
+	case 3:
+		v = float64(float32(3e38 * (0.5 + r.Float64()/2)))
+	default:
+		v = float64(float32(math.Ldexp(1+r.Float64(), 53+r.Intn(75))))
+	}
+	if v > 3e38 {
+		v = float64(float32(3e38))
+	}
+	if r.Intn(2) == 0 {
+		v = -v
+	}
+	return v
+}
+
+// every spelling of every group polyform's default reader recognises
+var allSpellings = [][]string{
+	{"x", "y", "z"}, {"px", "py", "pz"}, {"posx", "posy", "posz"},
+	{"nx", "ny", "nz"}, {"normalx", "normaly", "normalz"},
+	{"red", "green", "blue", "alpha"}, {"r", "g", "b", "a"}, {"diffuse_red", "diffuse_green", "diffuse_blue", "diffuse_alpha"},
+	{"s", "t"}, {"f_dc_0", "f_dc_1", "f_dc_2"}, {"scale_0", "scale_1", "scale_2"}, {"rot_0", "rot_1", "rot_2", "rot_3"},
+}
+
+// loneComponents draws a proper, non-empty subset of one spelling such that, with
+// the names already used, no recognised group becomes complete: every member is
+// then just a scalar of its own name.
+func loneComponents(r *rand.Rand, used map[string]bool) []string {
+	for try := 0; try < 6; try++ {
+		sp := allSpellings[r.Intn(len(allSpellings))]
+		if try == 0 && !used["x"] && r.Intn(2) == 0 {
+			sp = allSpellings[0] // files without x y z are rare: use them
+		}
+		var free []string
+		for _, n := range sp {
+			if !used[n] {
+				free = append(free, n)
+			}
+		}
+		if len(free) == 0 {
+			continue
+		}
+		k := 1
+		if r.Intn(10) >= 6 && len(sp) > 2 {
+			k = 1 + r.Intn(len(sp)-1)
+		}
+		r.Shuffle(len(free), func(i, j int) { free[i], free[j] = free[j], free[i] })
+		if k > len(free) {
+			k = len(free)
+		}
+		pick := free[:k]
+		if len(pick) == len(sp) || completesAGroup(used, pick) {
+			continue
+		}
+		return pick
+	}
+	return nil
+}
+
+func chunks0[T ~[]vprop](cs []T) [][]vprop {
+	out := make([][]vprop, len(cs))
+	for i, c := range cs {
+		out[i] = c
+	}
+	return out
+}
+
+func sizeOf(t string) int {
+	switch t {
+	case "uchar":
+		return 1
+	case "double":
+		return 8
+	}
+	return 4
+}
+
+// directedNearPacked rearranges the property list so that two members of one
+// vector group sit exactly two slots apart with a foreign property of the same
+// byte size between them, the member that belongs between them being elsewhere
+// (`x intensity z y`, `y x nx z`, `nx x nz ny`, `rot_0 q rot_2 rot_1 rot_3`,
+// `rot_0 rot_1 q rot_3 rot_2`, `t q s`, …) — layouts on which a reader that
+// decodes a group from one window of the record takes the wrong property.
+func directedNearPacked(r *rand.Rand, m *model, chunks [][]vprop, used map[string]bool) {
+	var groups [][]vprop
+	for _, c := range chunks {
+		if len(c) >= 2 {
+			groups = append(groups, c)
+		}
+	}
+	if len(groups) == 0 {
+		return
+	}
+	g := groups[r.Intn(len(groups))]
+	member := map[string]int{}
+	for i, p := range g {
+		member[p.Name] = i
+	}
+	// the foreign property: same byte size, from another group / an extra, else a new extra
+	var rest []vprop
+	foreign := -1
+	var cands []int
+	for _, p := range m.VProps {
+		if _, ok := member[p.Name]; !ok {
+			rest = append(rest, p)
+			if sizeOf(p.Type) == sizeOf(g[0].Type) {
+				cands = append(cands, len(rest)-1)
+			}
+		}
+	}
+	var F vprop
+	if len(cands) > 0 && r.Intn(4) != 0 {
+		foreign = cands[r.Intn(len(cands))]
+		F = rest[foreign]
+		rest = append(rest[:foreign:foreign], rest[foreign+1:]...)
+	} else {
+		name := ""
+		for _, n := range []string{"pad", "intensity", "quality", "weight", "pad2"} {
+			if !used[n] {
+				name = n
+				break
+			}
+		}
+		if name == "" {
+			return
+		}
+		used[name] = true
+		t := g[0].Type
+		if t != "uchar" && r.Intn(2) == 0 {
+			t = map[string]string{"float": "int", "int": "float", "double": "double"}[t] // other type, same size
+		}
+		F = vprop{Name: name, Type: t}
+		m.NExtra++
+	}
+	// the window a F c
+	i := 0
+	pat := "a?c"
+	switch {
+	case len(g) == 2:
+		i = -1
+	case len(g) == 4 && r.Intn(2) == 0:
+		i = 1
+		pat = "b?d"
+	}
+	var window, others []vprop
+	if i < 0 {
+		// two-component groups: the pair split by the foreign property, or reversed
+		switch r.Intn(3) {
+		case 0:
+			window, pat = []vprop{g[0], F, g[1]}, "a?b"
+		case 1:
+			window, pat = []vprop{g[1], F, g[0]}, "b?a"
+		default:
+			window, pat = []vprop{g[1], g[0], F}, "ba"
+		}
+	} else {
+		window = []vprop{g[i], F, g[i+2]}
+		if r.Intn(5) == 0 {
+			window = []vprop{g[i+2], F, g[i]}
+			pat += "(reversed)"
+		}
+		for k, p := range g {
+			if k != i && k != i+2 {
+				others = append(others, p)
+			}
+		}
+	}
+	// the other members: right after the window, right before it, or anywhere else
+	var before, after []vprop
+	var far []vprop
+	for _, p := range others {
+		switch r.Intn(3) {
+		case 0:
+			after = append(after, p)
+		case 1:
+			before = append(before, p)
+		default:
+			far = append(far, p)
+		}
+	}
+	block := append(append(append([]vprop{}, before...), window...), after...)
+	at := r.Intn(len(rest) + 1)
+	out := append(append(append([]vprop{}, rest[:at]...), block...), rest[at:]...)
+	for _, p := range far {
+		// not inside the window
+		var slots []int
+		for k := 0; k <= len(out); k++ {
+			inside := false
+			if k > 0 && k < len(out) {
+				// k splits out[k-1] | out[k]: forbidden when both belong to the window
+				a, b := out[k-1].Name, out[k].Name
+				inW := func(n string) bool {
+					for _, q := range window {
+						if q.Name == n {
+							return true
+						}
+					}
+					return false
+				}
+				inside = inW(a) && inW(b)
+			}
+			if !inside {
+				slots = append(slots, k)
+			}
+		}
+		k := slots[r.Intn(len(slots))]
+		out = append(out[:k:k], append([]vprop{p}, out[k:]...)...)
+	}
+	m.VProps = out
+	m.Order = "directed-near-packed"
+	m.Directed = g[0].Name + ":" + pat
 }
